@@ -8,7 +8,7 @@ claim("C01", "exploration", "property-based testing of Balancer.rebalance agains
       "Generated batches of corpus, mutated-balanced, redox-template and assembled reactions under drawn batch sizes, thresholds and worker counts; every solved row is re-balanced by an oracle sharing no code with synrbl. Failures are bucketed by stage/template and shrunk. No exhaustive claim beyond the enumerated template x R-group and Z>86 lists.",
       PIPE_NOTE, "DESIGN.md 4/C01")
 claim("C02", "exploration", "property-based testing with a canonical-multiset containment oracle; marker-substring enrichment of inputs",
-      "Generated reactions (half of them enriched with molecules spelling the pipeline's marker substrings) are run end-to-end; per side the canonical multiset of input molecules must be contained in the output and input_reaction must be the unmapped input. One genuine defect is recorded as known finding K02 and recognised by an input-shape predicate.",
+      "Generated reactions (half of them enriched with molecules spelling the pipeline's marker substrings) are run end-to-end; per side the canonical multiset of input molecules must be contained in the output and input_reaction must be the unmapped input. The defects it found (marker substrings glued into neighbouring molecules; a given H2O2 product consumed) were repaired in /repo (ef0e6d9, 8d1e21d).",
       PIPE_NOTE, "DESIGN.md 4/C02")
 claim("C03", "exploration", "property-based testing of decline/solve row invariants with an independent carbon-count oracle",
       "Generated reactions at the default threshold: declined rows must equal their input and carry an issue, solved rows must name a method and carry no issue, product-side carbon excess must be declined.",
